@@ -553,6 +553,7 @@ type LemmaInst struct {
 type AtCall struct {
 	Callee string
 	Clause *Clause
+	Apply  bool // apply-at-call: Clause.E is lemmaName(args...); the lemma instance is assumed at the call
 }
 
 type AssertAt struct {
@@ -848,6 +849,18 @@ func (cs *ContractSet) parseContractText(pkgPath, file string, lines []string, l
 					return err
 				}
 				cur.AtCalls = append(cur.AtCalls, &AtCall{Callee: callee, Clause: c})
+			case "apply-at-call":
+				// apply-at-call <callee> lemma(arg, ...): just before each call of <callee>, the (separately
+				// proved) lemma is instantiated with the argument values of that program point
+				callee, e, _ := strings.Cut(rest, " ")
+				c, err := parseClause(e, file, line)
+				if err != nil {
+					return err
+				}
+				if _, ok := c.E.(*ECall); !ok {
+					return fmt.Errorf("%s:%d: apply-at-call needs lemma(args...)", file, line)
+				}
+				cur.AtCalls = append(cur.AtCalls, &AtCall{Callee: callee, Clause: c, Apply: true})
 			default:
 				return fmt.Errorf("%s:%d: unknown contract keyword %q", file, line, kw)
 			}
